@@ -49,16 +49,22 @@ Fixpoint zlist_eqb (a b : list Z) : bool :=
   | _, _ => false
   end.
 
-Definition known (ks : list (list Z)) (k : list Z) : bool := existsb (zlist_eqb k) ks.
+(* keys are compared through a hash first (a plain number), the lists only on a hash hit *)
+Definition hash (k : list Z) : Z := fold_left (fun h x => (h * 1000003 + x + 7) mod 2305843009213693951) k 17.
+Definition hkey := (Z * list Z)%type.
+Definition mk_hkey (st : state) : hkey := let k := key st in (hash k, k).
+Definition hkey_eqb (a b : hkey) : bool := (fst a =? fst b) && zlist_eqb (snd a) (snd b).
+
+Definition known (ks : list hkey) (k : hkey) : bool := existsb (hkey_eqb k) ks.
 
 (* add the states of `xs` whose key is new *)
-Fixpoint add_new (xs : list state) (acc : list state) (ks : list (list Z)) (fresh : list state)
-  : list state * list (list Z) * list state :=
+Fixpoint add_new (xs : list state) (acc : list state) (ks : list hkey) (fresh : list state)
+  : list state * list hkey * list state :=
   match xs with
   | [] => (acc, ks, fresh)
-  | x :: r => let k := key x in
+  | x :: r => let k := mk_hkey x in
               if known ks k then add_new r acc ks fresh
-              else add_new r (acc ++ [x]) (k :: ks) (x :: fresh)
+              else add_new r (x :: acc) (k :: ks) (x :: fresh)
   end.
 
 (* Partial-order reduction: the adapter's Close of a conn it took aside (CloseTaken) commutes with every
@@ -76,13 +82,18 @@ Definition succs (st : state) : list state :=
 Definition settled (st : state) : bool :=
   match filter (enabled st) (internal_events st) with [] => true | _ => false end.
 
-Fixpoint closure (fuel : nat) (frontier acc : list state) (ks : list (list Z)) : list state :=
+(* budget: the lag-tolerant pass gives up growing a state set beyond this size (the history was already
+   rejected by the quiet pass; a set this large means the verdict stays "not accepted") *)
+Definition budget : nat := 1500.
+
+Fixpoint closure (fuel : nat) (frontier acc : list state) (ks : list hkey) : list state :=
   match fuel with
   | O => acc
   | S f =>
     match frontier with
     | [] => acc
-    | _ => let '(acc', ks', fresh) := add_new (flat_map succs frontier) acc ks [] in
+    | _ => if (budget <? length acc)%nat then acc else
+           let '(acc', ks', fresh) := add_new (flat_map succs frontier) acc ks [] in
            closure f fresh acc' ks'
     end
   end.
